@@ -119,6 +119,8 @@ CallErrs(e) ==
                    ELSE E(m \in ProcModes \/ e.exc, "C20.OutcomeExc"))
              \cup E(e.out = ExpOut(k, m), "C20.OutcomeOut")
         ELSE {})
+  \* the serving process' base environment (_task_env) is not touched by a request
+  \cup E(e.a.tT = e.b.tT /\ e.a.ntenv = e.b.ntenv, "C20.RestoredTaskEnv")
   \cup E(e.a.X = e.b.X /\ e.a.KEEP = e.b.KEEP /\ e.a.T = e.b.T /\ e.a.nenv = e.b.nenv,
          "C20.RestoredEnv")
   \cup E(e.a.pX = e.b.pX /\ e.a.pKEEP = e.b.pKEEP /\ e.a.pT = e.b.pT, "C20.RestoredProcEnv")
